@@ -400,6 +400,33 @@ Proof.
   - intros rid id o Hin Ho. rewrite H2 in Hin. eapply C; eauto. unfold get_op in *. rewrite <- H1. exact Ho.
 Qed.
 
+Lemma running_bury_cancel c id : running (bury (cancel c id) id) = running c.
+Proof.
+  unfold bury, cancel. repeat match goal with |- context [match ?x with _ => _ end] => destruct x end; reflexivity.
+Qed.
+
+Lemma running_influence c : running (influence c) = running c.
+Proof.
+  unfold influence. generalize (map snd (running c)) as ids. intros ids. revert c.
+  induction ids as [|id r IH]; intros c; cbn [fold_left]; [reflexivity|]. rewrite IH.
+  unfold influence_one. destruct (get_op c id); [|reflexivity]. destruct (check_timeout o). reflexivity.
+Qed.
+
+Lemma left_poll_gone c rid : RInv c -> Left c (poll_gone c rid).
+Proof.
+  intros Hnd. unfold poll_gone. destruct (alist_get (cache c) rid); [apply Left_refl|].
+  destruct (alist_get (running c) rid) as [id|]; [|apply Left_refl].
+  destruct (get_op c id) as [o|] eqn:Ho; [|apply Left_refl].
+  pose proof (left_remove_operator c id Hnd) as L. unfold remove_operator in L. rewrite Ho in L.
+  destruct (remove_locked c o) as [c1 removed] eqn:Er. cbn [fst] in *. destruct removed; cbn [fst] in L.
+  - exact L.
+  - (* not removed: the running set is untouched *)
+    assert (E : c1 = c).
+    { unfold remove_locked in Er. destruct (alist_get (running c) (o_rid o)) as [i|]; [|inversion Er; reflexivity].
+      destruct (i =? o_id o); inversion Er; reflexivity. }
+    subst c1. apply Left_same. apply running_bury_cancel.
+Qed.
+
 Lemma ctl_step_wf_left c e : WF c -> WF (fst (ctl_step c e)) /\ Left c (fst (ctl_step c e)).
 Proof.
   intros H. destruct e; cbn [ctl_step].
@@ -445,6 +472,9 @@ Proof.
   - destruct (get_op c id) as [o|] eqn:Ho; cbn [fst]; [|split; [exact H|apply Left_refl]].
     split; [|apply Left_same; reflexivity].
     eapply WF_frame; [|exact H]. apply frame_op_update with (id := id) (o := o); [exact Ho|apply rel_poke_op].
+  - cbn [fst]. split; [eapply WF_frame; [apply frame_influence|exact H]|apply Left_same; apply running_influence].
+  - cbn [fst]. split; [eapply WF_same; [| |exact H]; reflexivity|apply Left_same; reflexivity].
+  - cbn [fst]. split; [eapply WF_frame; [apply frame_poll_gone|exact H]|apply left_poll_gone; apply (wf_rinv _ H)].
 Qed.
 
 Lemma WF_init maxw : WF (init maxw).
